@@ -281,3 +281,19 @@ def metadata_encrypted_when_present(ctx):
 def errors_propagated(ctx):
     """'... truncated or altered ciphertexts yield an error': on the decrypting paths no Result is converted into None / a default."""
     c07.errors_propagated(ctx)
+
+
+@rule('C12', 'no-panic-on-decrypt')
+def no_panic_on_decrypt(ctx):
+    """'... truncated or altered ciphertexts yield an error, never a panic': every crate-local panic site reachable from the
+    header / PKE decrypting entry points is discharged (same audit as C14.panic, over these entry points)."""
+    from . import c14
+    F = ctx.F
+    roots = [b.key for b in F.fns() if b.name == 'decrypt' and b.impl_trait and ('traits::PkeAc' in b.impl_trait or b.impl_trait.endswith('traits::AE'))]
+    roots.append('encrypted_header::EncryptedHeader::decrypt')
+    roots = [r for r in roots if r in F.bodies]
+    CG = lib.callgraph(F)
+    reach = CG.reachable(roots)
+    n = c14.audit_panics(ctx, F, reach, 'the decryption of a header / PKE ciphertext')
+    ctx.floor(len(roots), 3, 'decrypting entry points')
+    ctx.note('%d functions reachable from the decrypting entry points, %d panic sites audited' % (len(reach), n))
